@@ -205,3 +205,31 @@ package xlsx
 //@   ensures handle_released: !isnil(old(r.zipReader)) ==> closed == 1
 //@   ensures nothing_left_to_close: isnil(r.zipReader)
 //@   ensures second_close_is_a_no_op: isnil(old(r.zipReader)) ==> closed == 0 && !err
+
+// ---- C15/C17: the Markdown table of a sheet: every line (header, separator, each data row) has exactly
+// maxCol-minCol+1 cells - merged, covered and missing cells included - and a written value is the value of the
+// cell at (row, col).  `cells` counts the cell terminators written.
+//@ func (*Reader) MarkdownWithOptions results (md, err)
+//@   property C15, C17
+//@   flags nosafety
+//@   requires forall k int :: {r.sheets[k]} 0 <= k && k < len(r.sheets) ==> !isnil(r.sheets[k]) && r.sheets[k].MaxCol >= 0 - 1
+//@   count cells: WriteString(s) when s == " |" || s == "---|"
+//@   callsite escapeMarkdown#1(s) requires header_cell_in_place: s == sheet.Rows[minRow][col].Value
+//@   callsite escapeMarkdown#2(s) requires data_cell_in_place: s == sheet.Rows[row][col].Value
+//@   loop 0:
+//@     invariant forall k int :: {sheets[k]} 0 <= k && k < len(sheets) ==> !isnil(sheets[k]) && sheets[k].MaxCol >= 0 - 1
+//@   loop 1:
+//@     invariant forall k int :: {sheets[k]} 0 <= k && k < len(sheets) ==> !isnil(sheets[k]) && sheets[k].MaxCol >= 0 - 1
+//@   loop 2:
+//@     invariant minCol <= col && col <= maxCol + 1 && cells == entry(cells) + col - minCol
+//@     decreases maxCol + 1 - col
+//@   loop 3:
+//@     invariant minCol <= col && col <= maxCol + 1 && cells == entry(cells) + col - minCol
+//@     decreases maxCol + 1 - col
+//@   loop 4:
+//@     invariant minCol <= maxCol
+//@     step every_row_has_all_columns: cells == prev(cells) + maxCol - minCol + 1
+//@     decreases maxRow + 1 - row
+//@   loop 5:
+//@     invariant minCol <= col && col <= maxCol + 1 && cells == entry(cells) + col - minCol
+//@     decreases maxCol + 1 - col
